@@ -148,8 +148,16 @@ class Unit:
 
 def _loc(l):
     if 'expansionLoc' in l:
-        return l['expansionLoc']
+        sp = l.get('spellingLoc', {})
+        ex = l['expansionLoc']
+        # a macro ARGUMENT is spelled in the real source file: use that position; a macro BODY is not
+        if sp.get('_file') == ex.get('_file') and 'offset' in sp:
+            return sp
+        return ex
     return l
+
+
+_SRC_CACHE = {}
 
 
 def rng(n):
@@ -160,12 +168,36 @@ def rng(n):
     e = _loc(r['end'])
     if 'offset' not in b or 'offset' not in e:
         return None
-    return (b['_file'], b['offset'], e['offset'] + e['tokLen'])
+    end = e['offset'] + e['tokLen']
+    if is_macro(n) and b['offset'] == e['offset'] and b.get('_file') and os.path.exists(b['_file']):
+        # function-like macro invocation NAME( ... ): the expansion location is only NAME; extend to the closing paren
+        src = _SRC_CACHE.get(b['_file'])
+        if src is None:
+            src = _SRC_CACHE.setdefault(b['_file'], open(b['_file'], 'rb').read())
+        i = end
+        while i < len(src) and src[i:i + 1].isspace():
+            i += 1
+        if src[i:i + 1] == b'(':
+            depth = 0
+            while i < len(src):
+                if src[i:i + 1] == b'(':
+                    depth += 1
+                elif src[i:i + 1] == b')':
+                    depth -= 1
+                    if depth == 0:
+                        end = i + 1
+                        break
+                i += 1
+    return (b['_file'], b['offset'], end)
 
 
 def is_macro(n):
     r = n.get('range', {})
-    return 'expansionLoc' in r.get('begin', {}) or 'expansionLoc' in r.get('end', {})
+    for k in ('begin', 'end'):
+        l = r.get(k, {})
+        if 'expansionLoc' in l and l.get('spellingLoc', {}).get('_file') != l['expansionLoc'].get('_file'):
+            return True
+    return False
 
 
 def kids(n):
@@ -260,6 +292,7 @@ def norm_type(t):
     t = re.sub(r'\s*([<>,&*])\s*', r'\1', t)
     t = re.sub(r',allocator<[^<>]*(<[^<>]*>)?[^<>]*>', '', t)
     t = re.sub(r'numeric_type_of<[^<>]*(<[^<>]*>)?[^<>]*>', 'double', t)
+    t = re.sub(r'^multi_channel_integrand<.*>::map_type$', 'vpinst::Map', t)
     return t
 
 
@@ -1149,6 +1182,23 @@ class Emitter:
         if ex:
             return '{ %s vp_retval = %s; %s return vp_retval; }' % (self.decl_ctype(rti), self.emit(ks[0]), ex)
         return None
+
+    def o_ParenExpr(self, n):
+        # assert(c) from <cassert>:  (static_cast<bool>(c) ? void(0) : __assert_fail(...))  ->  VP_REPO_ASSERT(c): an obligation
+        if not is_macro(n):
+            return None
+        ks = kids(n)
+        if len(ks) == 1 and ks[0]['kind'] == 'ConditionalOperator':
+            c3 = kids(ks[0])
+            if len(c3) == 3 and c3[2]['kind'] == 'CallExpr':
+                callee = strip_all(kids(c3[2])[0])
+                if callee.get('referencedDecl', {}).get('name') == '__assert_fail':
+                    cond = c3[0]
+                    while cond['kind'] in ('CXXStaticCastExpr', 'ImplicitCastExpr', 'CXXFunctionalCastExpr') and len(kids(cond)) == 1 and 'bool' in qtype(cond):
+                        cond = kids(cond)[0]
+                    self.fire('G14')
+                    return 'VP_REPO_ASSERT(%s)' % self.emit(cond)
+        raise ExtractError('macro expansion inside extracted code (not assert)')
 
     def o_CXXThrowExpr(self, n):
         self.fire('G14')
